@@ -55,15 +55,17 @@ class Exploration:
         self.bound = None
 
 
-def explore_choices(run, bound=None, cap=None, horizon=None, on_result=None):
+def explore_choices(run, bound=None, cap=None, horizon=None, on_result=None, wall=None):
     """run(script) -> outcome (any; canon()-able).  on_result(script, outcome) is called per execution.
     Returns Exploration."""
     ex = Exploration()
     ex.bound = bound
+    import time
+    t_end = (time.time() + wall) if wall else None
     stack = [[]]
     while stack:
         prefix = stack.pop()
-        if cap is not None and ex.executions >= cap:
+        if (cap is not None and ex.executions >= cap) or (t_end is not None and ex.executions > 0 and time.time() > t_end):
             ex.complete = False
             break
         sc = Script(prefix, horizon)
